@@ -422,12 +422,27 @@ def check_option_tables(ctx, db):
     ctx.covered('R18.5', 'option dictionary entries vs enumerators of the C member they are stored in (name and value, both directions)', n, floor=60, samples=samples)
     # getter iterates the same dict the setter indexes
     ng = 0
+    tables = {t[1] for t in OPTION_TABLES}
+    # tables derived at module level from exactly one option table (reverse dictionaries, copies) stand for that table
+    derived = {}
+    for path_, tree_ in db.files.items():
+        for st_ in tree_.body:
+            if isinstance(st_, ast.Assign) and len(st_.targets) == 1 and isinstance(st_.targets[0], ast.Name) and st_.targets[0].id.isupper():
+                used = {n_.id for n_ in ast.walk(st_.value) if isinstance(n_, ast.Name) and n_.id in tables}
+                if len(used) == 1 and st_.targets[0].id not in tables:
+                    derived[st_.targets[0].id] = next(iter(used))
+
+    def base_tables(fn_):
+        out = set()
+        for n_ in ast.walk(fn_):
+            if isinstance(n_, ast.Name) and n_.id.isupper() and len(n_.id) > 3:
+                out.add(derived.get(n_.id, n_.id))
+        return out
     for py, cls in sorted(db.classes.items()):
         for pname, acc in cls.props.items():
             if 'get' in acc and 'set' in acc:
-                gd = {n_.id for n_ in ast.walk(acc['get']) if isinstance(n_, ast.Name) and n_.id.isupper() and len(n_.id) > 3}
-                sd = {n_.id for n_ in ast.walk(acc['set']) if isinstance(n_, ast.Name) and n_.id.isupper() and len(n_.id) > 3}
-                tables = {t[1] for t in OPTION_TABLES}
+                gd = base_tables(acc['get'])
+                sd = base_tables(acc['set'])
                 gd &= tables
                 sd &= tables
                 if gd or sd:
